@@ -18,6 +18,7 @@
 # the LICENSES folder.
 
 from inspect import (
+    Parameter,
     Signature,
     signature,
 )
@@ -61,7 +62,16 @@ def _initialize_window_functions():
 
         if not ("M" in sig.parameters and "sym" in sig.parameters):
             continue
-        elif len(sig.parameters) > 2:
+        elif any(
+            (
+                p.kind is not Parameter.KEYWORD_ONLY or p.default is Parameter.empty
+                for key, p in sig.parameters.items()
+                if key not in ("M", "sym")
+            )
+        ):
+            # Only optional keyword-only parameters (e.g., 'xp' and 'device'
+            # in newer versions of SciPy) are allowed in addition to the two
+            # parameters that define the window.
             continue
 
         _WINDOW_FUNCTIONS[name] = func
